@@ -138,12 +138,13 @@ Section Threads.
   Definition pool := list (tstate (list outcome)).
 
   (** start every thread: each runs to its first lock acquisition *)
-  Fixpoint start (progs : list (list op)) (st : store) : store * pool :=
+  (** [regs0]: the handles the sequential setup left open; the FIRST thread owns them (as in the harness) *)
+  Fixpoint start (regs0 : list (nat * hid)) (progs : list (list op)) (st : store) : store * pool :=
     match progs with
     | [] => (st, [])
     | ops :: rest =>
-        let '(st1, ts) := advance (thread_prog 0 ops [] []) st in
-        let '(st2, tss) := start rest st1 in
+        let '(st1, ts) := advance (thread_prog 0 ops regs0 []) st in
+        let '(st2, tss) := start [] rest st1 in
         (st2, ts :: tss)
     end.
 
@@ -179,9 +180,10 @@ Definition run_conc (fuel : nat) (c : conc_case)
   let rs := mkRS st0 [] in
   (* sequential setup *)
   (* the i-th setup op has index 1000 + i (its handle register, as in the harness) *)
-  let st1 := rs_store (snd (fold_left (fun ir o => (S (fst ir), fst (run_op (cc_cfg c) fuel (fst ir) o (snd ir))))
-                                      (cc_setup c) (1000, rs))) in
-  let '(st2, p) := start (cc_cfg c) fuel (cc_threads c) st1 in
+  let rs1 := snd (fold_left (fun ir o => (S (fst ir), fst (run_op (cc_cfg c) fuel (fst ir) o (snd ir))))
+                            (cc_setup c) (1000, rs)) in
+  let st1 := rs_store rs1 in
+  let '(st2, p) := start (cc_cfg c) fuel (rs_regs rs1) (cc_threads c) st1 in
   let '(st3, p', labels) := follow (cc_schedule c) st2 p [] in
   let snap := match inst (cc_cfg c) (cc_target c) with
               | Some v => snd (run bhandler (snapshot fuel v) st3)
